@@ -120,3 +120,74 @@ def t_dispatch(host='HsmEventProcessor'):
         c.prove('dispatch:post/state_fn', c.hget(self, 'state_fn') == new, tags=('C23',))
         c.cover('dispatch:cover/post-state')
     return Target('dispatch@%s' % host, run, [CORE + 'dispatch', CORE + 'trans', CORE + 'top'])
+
+
+def t_top():
+    """top of both classes against its row of the handler contract: IGNORED, no effect (client events)."""
+    def run(it):
+        c = it.c
+        for host in ('HsmEventProcessor', 'HsmWithQueues'):
+            self = make_chart(it, host, with_queues=False)
+            e = symbolic_event(it)
+            tf0 = H.temp_fun(it, self)
+            out = framed(it, 'top:frame', [], lambda: run_body(it, method(it, self, 'top'), [self, e]))
+            c.prove('%s.top:post/ignored-and-no-effect' % host,
+                    z3.And(out.raised is None, c.to_int(out.value) == it.w.statuses['IGNORED'],
+                           H.temp_fun(it, self) == tf0) if out.raised is None else False, tags=('C02',))
+    return Target('top', run, [CORE + 'top'])
+
+
+def _mon_snapshot(c):
+    return dict((k, c.ghost[k]) for k in H.MON_VARS)
+
+
+def _mon_unchanged(c, snap):
+    return z3.And([c.ghost[k] == v for k, v in snap.items()])
+
+
+def t_is_in(host='HsmEventProcessor'):
+    def run(it):
+        c, g = it.c, it.c.ghost
+        self, cur = H.chart_pre(it, host)
+        H.mon_init(c, cur, NONE, H.SEARCH)
+        c.pyghost['cur0'] = cur
+        X = c.fresh_ref('X', 'state', distinct=False)
+        c.assume(X.e != NONE)
+        snap = _mon_snapshot(c)
+        out = framed(it, 'is_in:frame', [(H.temp_of(it, self), 'fun')],
+                     lambda: run_body(it, method(it, self, 'is_in'), [X]))
+        c.prove('is_in:post/returns-normally', out.raised is None, tags=('C22',))
+        if out.raised is not None:
+            return
+        res = c.to_bool(out.value)
+        c.prove('is_in:post/true-iff-current-or-enclosing', res == encloses(X.e, cur), tags=('C22',))
+        c.prove('is_in:post/chart-unchanged', z3.And(H.state_fun(it, self) == cur, H.temp_fun(it, self) == cur),
+                tags=('C22',))
+        c.prove('is_in:post/no-action-no-offer', _mon_unchanged(c, snap), tags=('C22',))
+        c.cover('is_in:cover')
+    return Target('is_in@%s' % host, run, [CORE + 'is_in'])
+
+
+def t_child_state(host='HsmEventProcessor'):
+    def run(it):
+        c, g = it.c, it.c.ghost
+        self, cur = H.chart_pre(it, host)
+        H.mon_init(c, cur, NONE, H.SEARCH)
+        c.pyghost['cur0'] = cur
+        P = c.fresh_ref('P', 'state', distinct=False)
+        c.assume(P.e != NONE)
+        snap = _mon_snapshot(c)
+        out = framed(it, 'child_state:frame', [(H.temp_of(it, self), 'fun')],
+                     lambda: run_body(it, method(it, self, 'child_state'), [P]))
+        if out.raised is None:
+            c.prove('child_state:post/returns-only-when-enclosing', encloses(P.e, cur), tags=('C22',))
+            c.prove('child_state:post/child-on-path-to-current',
+                    c.to_ref(out.value) == z3.If(P.e == cur, cur, anc(cur, depth(P.e) + 1)), tags=('C22',))
+        else:
+            c.prove('child_state:post/fails-with-AssertionError', out.raised == 'AssertionError', tags=('C22',))
+            c.prove('child_state:post/fails-only-when-not-enclosing', z3.Not(encloses(P.e, cur)), tags=('C22',))
+        c.prove('child_state:post/chart-unchanged', z3.And(H.state_fun(it, self) == cur, H.temp_fun(it, self) == cur),
+                tags=('C22',))
+        c.prove('child_state:post/no-action-no-offer', _mon_unchanged(c, snap), tags=('C22',))
+        c.cover('child_state:cover')
+    return Target('child_state@%s' % host, run, [CORE + 'child_state'])
